@@ -173,7 +173,11 @@ def add_faults(rng, cfg, ncalls, horizon=None):
         elif cfg.get('pools') and x < 0.95:
             c = dict(t=t, prio=prio, call='addres', res=rng.choice(sorted(cfg['pools'])), arg=rng.choice([-2, -1, 1, 2]))
         else:
-            c = dict(t=t, prio=prio, call='noise', dev=rng.choice(holders or [1]), arg=rng.choice([1, 2]))
+            plain = [d['id'] for d in devs if d['kind'] == 'source' and d['bsrc'] < 0]
+            if plain and rng.random() < 0.5:
+                c = dict(t=t, prio=prio, call='partnoise', dev=rng.choice(plain), arg=rng.choice([1, 2, -1]))
+            else:
+                c = dict(t=t, prio=prio, call='noise', dev=rng.choice(holders or [1]), arg=rng.choice([1, 2]))
         script.append(c)
     # every shutdown / failure is followed (some time later) by a restore, so that lines do not just die
     for c in list(script):
@@ -511,6 +515,59 @@ def gen_cbm(rng, count=24):
     return out
 
 
+def gen_misc(rng, count=24):
+    """Further targeted situations: a part that changes its value while it waits in a source; a buffer whose
+    oldest item is refused while a younger one would be taken (parity gates in front of a fast and a slow
+    machine; a batch that does not fit the next buffer while a single part would); several blocked machines
+    that get one common downstream at once."""
+    out = []
+    for i in range(count):
+        kind = i % 4
+        H = rng.choice([24, 32])
+        if kind == 0:
+            devs = [src(1, rng.choice([3, 5, -1]), pval=rng.choice([1, 2])), dev('processor', [1], cyc=rng.choice([5, 6, 8])),
+                    dev('sink', [2], cyc=0)]
+            script = [dict(t=t, prio=rng.choice([20, 115]), call='partnoise', dev=1, arg=rng.choice([1, 2, 3, -1]))
+                      for t in rng.sample(range(2, 16), rng.choice([2, 3]))]
+            cfg = dict(devs=devs, script=script, horizon=H)
+            fam = 'waiting-part-changes'
+        elif kind == 1:
+            slow, fast = rng.choice([6, 8, 10]), rng.choice([1, 2])
+            odd_first = rng.random() < 0.5
+            devs = [src(1, rng.choice([6, 8, -1]), pval=1), dev('buffer', [1], cap=rng.choice([4, 6, -1]), delay=rng.choice([0, 0, 1])),
+                    dev('gate', [2], pred='odd' if odd_first else 'even'), dev('gate', [2], pred='even' if odd_first else 'odd'),
+                    dev('processor', [3], cyc=slow), dev('processor', [4], cyc=fast), dev('sink', [5, 6], cyc=0)]
+            if rng.random() < 0.5:
+                devs[4]['cyc'], devs[5]['cyc'] = fast, slow
+            cfg = dict(devs=devs, horizon=H)
+            fam = 'fifo-head-refused'
+        elif kind == 2:
+            s = src(1, rng.choice([6, 9]), pval=1, bsrc=rng.choice([2, 3]))
+            s['bmix'] = True
+            devs = [s, dev('buffer', [1], cap=-1, delay=0), dev('buffer', [2], cap=rng.choice([3, 4]), delay=0),
+                    dev('processor', [3], cyc=rng.choice([4, 6])), dev('sink', [4], cyc=0)]
+            cfg = dict(devs=devs, horizon=H + 8)
+            fam = 'fifo-head-refused'
+        else:
+            k = rng.choice([2, 3, 3])
+            devs = []
+            for j in range(k):
+                devs.append(src(rng.choice([1, 2]), rng.choice([3, 5]), pval=1 + j))
+            for j in range(k):
+                devs.append(dev(rng.choice(['processor', 'handler']), [j + 1], cyc=rng.choice([1, 2])))
+            devs.append(dev(rng.choice(['sink', 'processor']), [], cyc=rng.choice([1, 2, 3])))
+            if devs[-1]['kind'] == 'processor':
+                devs.append(dev('sink', [2 * k + 1], cyc=0))
+            ups = list(range(k + 1, 2 * k + 1))
+            rng.shuffle(ups)
+            cfg = dict(devs=devs, script=[dict(t=rng.choice([5, 6, 8]), call='rewire', dev=2 * k + 1, ups=ups)], horizon=H)
+            fam = 'rewire-fan-in'
+        cfg = norm(cfg)
+        cfg['family'] = fam
+        out.append(cfg)
+    return out
+
+
 def gen_batch(rng, count=60):
     """single parts and batches through batchers, buffers, processors and sinks"""
     out = []
@@ -765,6 +822,7 @@ def quick_family(seed, scale=1.0):
     out += gen_groups(rng, max(4, int(60 * scale)))
     out += [add_faults(rng, c, rng.choice([1, 2, 3])) for c in gen_gates(rng, max(4, int(40 * scale))) + gen_batch(rng, max(4, int(40 * scale)))]
     out += gen_cbm(rng, max(24, int(40 * scale)))
+    out += gen_misc(rng, max(24, int(32 * scale)))
     # split runs: a third of the configurations is also run in two or three consecutive runs
     for c in list(out):
         if rng.random() < 0.2 and not c['splits']:
@@ -775,4 +833,5 @@ def quick_family(seed, scale=1.0):
     for i, c in enumerate(out):
         c['cid'] = i + 1
         c['trace'] = (i % 7 == 3)      # every seventh configuration also exports the event trace file
+        c['sharedups'] = (i % 3 == 1)  # a third is built with one scratch upstream list that the builder keeps changing
     return out
